@@ -74,3 +74,12 @@ void h_split_indices(void)
   __CPROVER_assert(r.p[g].value._[0] == in_secret._[0], "with threshold 1 every share equals the secret");
   CANARY_POINT();
 }
+
+/* split under its function contract + loop contracts: for EVERY 32-byte secret, threshold and share count (0..255 each) */
+void h_split_contract(void)
+{
+  arr_u8_32 in_secret; uint8_t in_t, in_n;
+  __exc = 0;
+  vec_crypto__ShamirShare r = crypto__Shamir__split(&in_secret, in_t, in_n);
+  CANARY_POINT();
+}
